@@ -213,6 +213,36 @@ PROPS["C19"] = dict(
     note="Bounded. Trusted: the reference verifExcluded, engine, z3. Only the exclusion half of C19 is claimed by this check.",
 )
 
+PROPS["C18"] = dict(
+    pkg="ariga.io/atlas/sql/sqlcheck/destructive", hdir="destructive",
+    runs={
+        "quick": [
+            dict(harness="VerifHarness_C18_quick", reach=["destructive", "additive"]),
+            dict(harness="VerifHarness_C18_witness", role="witness", key="C18-order-insensitive-spans"),
+        ],
+        "thorough": [
+            dict(harness="VerifHarness_C18_thorough", reach=["destructive", "additive"]),
+            dict(harness="VerifHarness_C18_witness", role="witness", key="C18-order-insensitive-spans"),
+        ],
+    },
+    bounds={
+        "quick": "files of 1..3 statements over two tables (t0 with columns c0,c1; t1), each statement one of CREATE/DROP TABLE t0|t1, "
+                 "ALTER t0 ADD/DROP COLUMN c0|c1 (dropped column virtual or not), ALTER t0 ADD INDEX; every combination of what exists before the file",
+        "thorough": "same with files of 1..5 statements",
+    },
+    assumptions=[
+        "changes are given per statement as schema.Change lists (how they are derived from SQL on a dev database is outside the claim)",
+        "only valid sequences (no CREATE of an existing table, no DROP of a missing one...) are explored",
+        "inputs are structural: explored exhaustively by path forking (the solver has no data constraints here)",
+    ],
+    outside="DevLoader (statement execution / inspection / diff on a dev database), SQLite table-rebuild recognition, sqliteparse, "
+            "--latest N windowing, CLI exit status, schema drops (DS101)",
+    claim="For every file within the bounds the real destructive.Analyzer (with sqlcheck.File span tracking) reports DS102/DS103 at the position of "
+          "exactly the statements that drop a table / non-virtual column not created earlier in the same file, and fails iff there is one; "
+          "exhaustive over the bounded statement sequences. Files that drop and re-create the same object are the listed known finding.",
+    note="Structural enumeration (exhaustive: true) executed on the real SSA; reference = ordered replay in the harness.",
+)
+
 NOT_APPLICABLE = {
     "C01": "needs a real SQLite engine executing the planned SQL and pragma-based inspection; neither cgo code nor SQLite's DDL "
            "semantics can be encoded by an SSA-level symbolic executor, and a hand-written catalogue model would verify the model, not Atlas "
